@@ -257,6 +257,39 @@ theorem wrap_spread_in_fragment_ge (doc doc' : Doc) (vars : Vars) (hv : Valid do
         have hx : x ∈ doc.frags := by rw [hfr]; have := (lookupFrag_some hq).1; simp [this]
         exact .inr ⟨x, x, by simp, by simp, rfl, hfrees x hx⟩
 
+/-! ### `ValidDeclR` sharpened: availability is needed PER OPERATION, and only to read the result as the plain depth
+
+  The rule the tree runs today (`ruleB`: C19-Q1vars2 + C19-Q2) needs no hypothesis on the variables (`flags_iff_final`):
+  it reports the kept-when-unknown depth `depthRK`. The global hypothesis `ValidDeclR` of `flags_iff_raw` (every directive
+  variable of EVERY operation available) is therefore not needed for totality or for the verdict; what is left of it is
+  local: for an operation whose own directive variables (and those of the fragments) are available in the view the
+  rule evaluates it with, the reported depth is the specified depth `depthR` — whatever holds for the other operations. -/
+
+theorem flags_iff_final_available (doc : Doc) (defs : List (List VarDefR)) (raw : RawVars)
+    (hu : UniqueNames doc.frags) (ha : Acyclic doc.frags) (limit : Nat) (filter : Option String) :
+    ∃ errs, ruleB limit filter doc defs raw = .ok errs ∧
+      ∀ (i : Nat) (op : Op), doc.ops[i]? = some op →
+        boundL (effectiveVarsR (defs.getD i []) raw) op.sels = true →
+        (∀ f ∈ doc.frags, boundL (effectiveVarsR (defs.getD i []) raw) f.sels = true) →
+        ((∃ d, (i, d) ∈ errs) ↔ (opSelected filter op = true ∧ depthR doc defs raw i op > limit)) ∧
+        (∀ d, (i, d) ∈ errs → d = some (depthR doc defs raw i op)) := by
+  obtain ⟨errs, he, h⟩ := flags_iff_final doc defs raw hu ha limit filter
+  refine ⟨errs, he, ?_⟩
+  intro i op hi hb hfb
+  have e : depthRK doc defs raw i op = depthR doc defs raw i op := by
+    unfold depthRK depthR
+    exact depthK_eq_depth doc _ op hb hfb
+  have := h i op hi
+  rw [e] at this
+  exact this
+
+/-- `ValidDeclR` (the old global hypothesis) implies the local one for every operation -/
+theorem validDeclR_available (doc : Doc) (defs : List (List VarDefR)) (raw : RawVars) (hv : ValidDeclR doc defs raw)
+    (i : Nat) (op : Op) (hi : doc.ops[i]? = some op) :
+    boundL (effectiveVarsR (defs.getD i []) raw) op.sels = true ∧
+    ∀ f ∈ doc.frags, boundL (effectiveVarsR (defs.getD i []) raw) f.sels = true :=
+  hv.2.2 i op hi
+
 /-! ### non-vacuity: `{ ...F }  fragment F { a { c } d }` -/
 
 private theorem valid_of_checks' (doc : Doc) (vars : Vars) (h1 : acyclic doc.frags = true)
@@ -288,5 +321,10 @@ example : ∃ d d', depthFixed d0.fuel opF d0.frags [] = .ok d ∧ depthFixed d2
 
 /-- and the common depth is 1 -/
 example : depthFixed d2.fuel opF d2.frags [] = .ok 1 := by decide
+
+/-- the hypotheses of `flags_iff_final_available` hold for `d2` (no directive variables at all) -/
+example : UniqueNames d2.frags ∧ Acyclic d2.frags ∧ boundL (effectiveVarsR ([] : List VarDefR) []) opF.sels = true ∧
+    ∀ f ∈ d2.frags, boundL (effectiveVarsR ([] : List VarDefR) []) f.sels = true :=
+  ⟨by unfold UniqueNames; decide, acyclic_sound _ (by decide), by decide, by decide⟩
 
 end PyGql.Props.C19
